@@ -46,6 +46,8 @@ TRUSTED = [
     "Model/Stats.v: hand-written transcription of the statistics of RepeatedlyMeasuredValue / ExperimentalValueArray / "
     "calculate_covariance (tied by correspondence); its textbook layer t_* is the specification",
     "numpy mean / std / sum / sqrt (validated against the exact model on every run, not verified)",
+    "propagation through two correlated repeated measurements (a - b, 2a + b, a / b after selectors on either) is checked by the "
+    "oracle only (first-order law with the uncertainties in use), not modelled in Coq here (C01 owns the propagation law)",
     "np.random.normal is replaced by fixed dyadic offsets for the sample-by-sample Monte Carlo comparison; the oracle also runs "
     "real simulations (40000 samples, seeded from the case) against the 6-sigma bounds of the estimators",
 ]
@@ -201,8 +203,36 @@ def scale_errs(errs, f):
     return hx(fx(errs) * f)
 
 
+def gen_wmean_zero(rng):
+    """readings and positive uncertainties whose error-weighted mean is exactly 0 while the plain mean is not
+    (uncertainties are powers of two, so the weights and the weighted sum are exact in doubles)"""
+    for _ in range(50):
+        n = rng.choice([2, 2, 3, 4, 5])
+        ss = [2.0 ** rng.randrange(-3, 4) for _ in range(n)]
+        xs = [sl.dyadic(rng, 5, 2, nonzero=True) for _ in range(n - 1)]
+        ws = [Fraction(1) / Fraction(s) ** 2 for s in ss]
+        last = -sum((w * Fraction(x) for w, x in zip(ws, xs)), Fraction(0)) / ws[-1]
+        xl = float(last)
+        if Fraction(xl) != last:
+            continue
+        xs.append(xl)
+        if len(set(xs)) < 2 or sum(Fraction(x) for x in xs) == 0:
+            continue
+        f = rng.choice([1.0, 1.0, 2.0 ** -30, 2.0 ** 20])
+        sels = ["ewm"] + [rng.choice(["std", "eom", "ewm", "perr"]) for _ in range(rng.randrange(0, 3))]
+        return {"xs": [hx(x * f) for x in xs], "errs": [hx(s_ * f) for s_ in ss], "container": rng.choice(["list", "ndarray"]),
+                "k": hx(sl.dyadic(rng, 4, 2, nonzero=True)), "c": hx(sl.dyadic(rng, 5, 1) * f), "sels": sels,
+                "offsets": [hx(o) for o in sl.gen_offsets(rng)], "mc_seed": rng.randrange(2 ** 32), "scale": hx(f),
+                "special": "weighted mean exactly 0"}
+    return None
+
+
 def gen_rmv(rng, pow2=False):
     """pow2: the uncertainties are scaled by powers of two only (the readings by any factor)"""
+    if rng.random() < 0.06:
+        case = gen_wmean_zero(rng)
+        if case:
+            return case
     u = rng.random()
     scale = 1.0
     if u < 0.3:                                     # numpy arrays of a narrow dtype, values at its precision limit
@@ -298,6 +328,11 @@ def gen_pair(rng):
             "container_b": sl.pick_container(rng, ys, 0.35), "kind": kind}
     if rng.random() < 0.4:
         case["aliasing"] = rng.choice(["mutate", "buffer"])
+    # later propagation through both quantities: selectors applied to either after the covariance is on record
+    case["sel_a"] = rng.choice([[], ["std"], ["std"], ["std", "eom"], ["eom", "std"]])
+    case["sel_b"] = rng.choice([[], [], ["std"], ["std"], ["eom"]])
+    if rng.random() < 0.35:
+        case["declared"] = hx(rng.choice([0.5, -0.5, 0.75, -0.25, 1.0, -1.0, 0.125]))   # declared instead of inferred
     if k is not None:
         case["k"] = hx(k)
     if rng.random() < 0.3:
@@ -408,6 +443,8 @@ def correspondence(ctx):
                                        ("individual-with-zero" if any(fx(h) == 0 for h in e) else "individual"))
         res.count("rmv:n={}".format(len(case["xs"])))
         res.count("rmv:container:" + case.get("container", "list"))
+        if case.get("special"):
+            res.count("rmv:" + case["special"])
         for key in ("etype", "before", "prop_first", "aliasing"):
             if case.get(key):
                 res.count("rmv:" + key + ((":" + case[key]) if key == "etype" else ""))
@@ -685,6 +722,53 @@ def check_pair_oracle(case):
             return "exactly collinear arrays: correlation {} is not {}".format(float(corr), want)
         if "k" in case and (fx(case["k"]) > 0) != (want > 0):
             return "collinear arrays with slope sign {}: correlation {}".format(fx(case["k"]), float(corr))
+    return check_corrprop_oracle(case)
+
+
+def check_corrprop_oracle(case):
+    """two correlated repeated measurements, a non-default uncertainty selected on either, then first-order
+    propagation through both: var = da^2 ua^2 + db^2 ub^2 + 2 da db corr ua ub with the uncertainties IN USE"""
+    import qexpy as q
+    q.reset_correlations()
+    q.set_error_method("derivative")
+    try:
+        with warnings.catch_warnings():
+            warnings.simplefilter("ignore")
+            a, b = build_pair(case)
+            if a.std == 0 or b.std == 0:
+                return None
+            if case.get("declared") is not None or len(case["xs"]) != len(case["ys"]):
+                q.set_correlation(a, b, fx(case.get("declared") or hx(0.5)))
+            elif case["setter"] == "set_cov":
+                a.set_covariance(b)
+            else:
+                q.set_correlation(b, a)
+            for s in case.get("sel_a", []):
+                getattr(a, SEL_METHOD[s])()
+            for s in case.get("sel_b", []):
+                getattr(b, SEL_METHOD[s])()
+            corr = fr(float(q.get_correlation(a, b)))
+            ua, ub, va, vb = fr(float(a.error)), fr(float(b.error)), fr(float(a.value)), fr(float(b.value))
+            forms = [("a - b", lambda: a - b, Fraction(1), Fraction(-1)), ("2*a + b", lambda: 2 * a + b, Fraction(2), Fraction(1))]
+            if vb != 0 and abs(va) < 10 ** 6 * abs(vb):
+                forms.append(("a / b", lambda: a / b, 1 / vb, -va / vb ** 2))
+            for name, f, da, db in forms:
+                quad = da ** 2 * ua ** 2 + db ** 2 * ub ** 2
+                want = quad + 2 * da * db * corr * ua * ub
+                atol = Fraction(1, 10 ** 9) * quad
+                try:
+                    got = fr(float(f().error)) ** 2
+                except Exception as e:  # noqa
+                    if want > atol:
+                        return "{} of two correlated measurements: propagation raised {}".format(name, type(e).__name__)
+                    continue
+                if not sl.close(got, want, 2e-9, atol):
+                    return ("({}).error = {} with correlation {} and uncertainties in use {} / {} (selectors {} / {}); "
+                            "da^2 ua^2 + db^2 ub^2 + 2 da db corr ua ub gives {}".format(
+                                name, math.sqrt(got), float(corr), float(ua), float(ub), case.get("sel_a", []),
+                                case.get("sel_b", []), math.sqrt(max(want, 0))))
+    finally:
+        q.reset_correlations()
     return None
 
 
